@@ -1154,7 +1154,9 @@ func (ex *Exec) elemPtr(base Ptr, idx, ln *Term, es int64) Ptr {
 			cnt = 1
 		}
 		nd := append(append([]dim(nil), base.dims...), dim{stride: es, count: cnt, idx: idx})
-		return Ptr{obj: base.obj, off: off, cbase: cb, dims: nd}
+		// idx < len is on the path; when len is concrete and the len elements fit in the object the element is in bounds
+		safe := ln.IsConst() && int64(ln.Val) <= (base.obj.size-cb)/es && (base.dims == nil || base.safe)
+		return Ptr{obj: base.obj, off: off, cbase: cb, dims: nd, safe: safe}
 	}
 	return Ptr{obj: base.obj, off: off}
 }
